@@ -18,8 +18,36 @@ pub enum FileState {
     InvalidNoMagic,
     InvalidWithMagic,
     EmptyFile,
+    /// well-formed container whose transitions are not in ascending order (refused by the zone constructor)
+    SemanticTransitions,
+    /// well-formed container whose footer is not a TZ string
+    SemanticFooter,
+    /// well-formed container with a one-letter designation (refused by the local time type constructor)
+    SemanticType,
 }
-const STATES: [FileState; 6] = [FileState::Unreadable, FileState::ValidA, FileState::ValidB, FileState::InvalidNoMagic, FileState::InvalidWithMagic, FileState::EmptyFile];
+const STATES: [FileState; 9] = [
+    FileState::Unreadable,
+    FileState::ValidA,
+    FileState::ValidB,
+    FileState::InvalidNoMagic,
+    FileState::InvalidWithMagic,
+    FileState::EmptyFile,
+    FileState::SemanticTransitions,
+    FileState::SemanticFooter,
+    FileState::SemanticType,
+];
+
+fn semantic_file(which: FileState) -> Vec<u8> {
+    use refmodel::tzif::{file, Block};
+    let mut b = Block { trans: vec![], types: vec![(0, 0, 0), (3600, 1, 4)], chars: b"UTC\0CEST\0".to_vec(), leaps: vec![], isstd: vec![], isut: vec![] };
+    let mut footer: &[u8] = b"";
+    match which {
+        FileState::SemanticTransitions => b.trans = vec![(1000, 1), (500, 0)],
+        FileState::SemanticFooter => footer = b"not a tz string",
+        _ => b.chars = b"U\0\0\0CEST\0".to_vec(),
+    }
+    file(b'2', &b, Some(&b), Some(footer))
+}
 
 fn file_a() -> Vec<u8> {
     footer_file(b'2', b"<+01>-1")
@@ -35,6 +63,7 @@ fn bytes_of(s: FileState) -> Option<Vec<u8>> {
         FileState::InvalidNoMagic => Some(b"# zone.tab style text, not a TZif file\n".to_vec()),
         FileState::InvalidWithMagic => Some(b"TZif2\0\0\0truncated".to_vec()),
         FileState::EmptyFile => Some(vec![]),
+        FileState::SemanticTransitions | FileState::SemanticFooter | FileState::SemanticType => Some(semantic_file(s)),
     }
 }
 
@@ -74,6 +103,8 @@ fn zone_of_file(st: FileState) -> Outcome {
         FileState::ValidA => Outcome::Zone(Box::new(TimeZone::from_tz_data(&file_a()).unwrap())),
         FileState::ValidB => Outcome::Zone(Box::new(TimeZone::from_tz_data(&file_b()).unwrap())),
         FileState::Unreadable => Outcome::Io,
+        // the outcome class follows the component that refuses the file's content (see `classify`)
+        FileState::SemanticFooter | FileState::SemanticType => Outcome::StringError,
         _ => Outcome::DecodeError,
     }
 }
@@ -257,6 +288,8 @@ pub fn values() -> Vec<&'static str> {
 fn base_values() -> Vec<&'static str> {
     vec![
         "", "localtime", ":", ":UTC", ":/abs/f", "/abs/f", "UTC", "UTC0", " UTC0 ", "\tUTC0\n", "EST5EDT", "EST5EDT,M3.2.0,M11.1.0", "rel/f", "localtime ", ":localtime", " :UTC", "::UTC", "bad string", " localtime", "localtime\n", ": UTC", "/", ":/", "<+03>-3", " ", "\n", "EST5 ", ":EST5", "Europe/Paris", "../etc/passwd", ":/etc/localtime", "/etc/localtime",
+        // white space inside the value (only leading and trailing white space is insignificant)
+        "UTC0 junk", "UTC0\nEST5", "EST5EDT,M3.2.0,M11.1.0\t/etc/passwd", "UTC 0", "a b", "\tUTC0 x\n", "EST5", ":UTC0 junk",
     ]
 }
 
@@ -327,7 +360,7 @@ pub fn run(args: &Args) -> i32 {
     rec.add(total.evals, total.nontrivial);
     rec.add_model(total.evals, total.opens + total.evals, total.evals);
     rec.digest("resolve", total.digest);
-    rec.set_rule("complete product: TZ values x ordered directory lists x every assignment of {unreadable, valid A, valid B, invalid without magic, invalid with magic, empty} to the candidate paths the model names plus one path that must never be opened; the logged sequence of read requests and the outcome class (incl. the decoded zone) must equal the protocol model's. states = configurations, transitions = file-open requests. non-trivial = configurations with >= 2 opens or a non-zone outcome");
+    rec.set_rule("complete product: TZ values x ordered directory lists x every assignment of {unreadable, valid A, valid B, invalid without magic, invalid with magic, empty, well-formed container with unsorted transitions / bad footer / bad designation} to the candidate paths the model names plus one path that must never be opened; the logged sequence of read requests and the outcome class (incl. the decoded zone) must equal the protocol model's. states = configurations, transitions = file-open requests. non-trivial = configurations with >= 2 opens or a non-zone outcome");
     rec.set_exhaustive(true);
     let v = vals[(args.seed as usize * 5 + 6) % vals.len()];
     let d = &dls[(args.seed as usize + 3) % dls.len()];
